@@ -111,6 +111,14 @@ UNIVERSES = {
                  BlockTxs=[[], [1], [2], [], [1], [2]],
                  StartB=0, StartT=1, InitWatch=[1, 4], InitChain=[0, 1, 2], InitFH=2,
                  Updates=[dict(add=[2], rw=1)]),
+    # change outputs: T1 pays the watched address, T2 spends that output AND pays the watched address again
+    # (change), T3 spends the change; a fork repeats T2/T3 one block later.  A transaction that is relevant
+    # as a spend must still have its outputs registered.
+    "change": dict(Parent=[-1, 0, 1, 2, 3, 4, 3, 6],
+                   TxOuts=[[1], [0, 1], [0]], TxIns=[[0], [10], [21]], ExtScript=[],
+                   BlockTxs=[[], [], [], [1], [2], [3], [], [2, 3]],
+                   StartB=1, StartT=1, InitWatch=[1], InitChain=[0, 1, 2], InitFH=2,
+                   Updates=[dict(add=[2], rw=1)]),
     # free-running executions: main branch 1-5, fork after 2 (6,7,8), fork of the
     # fork after 6 (9,10); create->spend chains through first and later outputs,
     # an external outpoint
@@ -212,8 +220,10 @@ SCENARIOS = {
         ("deep", dict(MaxExt=4, MaxRb=3, MaxFail=1, MaxUpd=1, StaleFilterOK=True)),
         ("nowatch", dict(MaxExt=3, MaxRb=2, MaxFail=0, MaxUpd=0)),
         ("early", dict(MaxExt=3, MaxRb=2, MaxFail=0, MaxUpd=0)),
+        ("change", dict(MaxExt=3, MaxRb=1, MaxFail=1, MaxUpd=0)),
     ],
     "thorough": [
+        ("change", dict(MaxExt=4, MaxRb=2, MaxFail=1, MaxUpd=0, StaleFilterOK=True)),
         ("fork", dict(MaxExt=3, MaxRb=3, MaxFail=2, StaleFilterOK=True, WithQuit=True, MaxNotCur=1)),
         ("tip", dict(MaxExt=3, MaxRb=3, MaxFail=2, StaleFilterOK=True, WithQuit=True)),
         ("late", dict(MaxExt=3, MaxRb=2, MaxFail=1, StaleFilterOK=True)),
